@@ -346,6 +346,52 @@ def reach_fdata_body(kind: int, frame_number: int, dtB: int, ordA: bool, ordB: b
     return fdata_body_check(kind, frame_number, (dtB + 3) % 8, dtB, ordA, ordB, wB, 5)
 
 
+def fdata_cast_check(kind, dtB, castB, ordB, ordC, wB):
+    """As fdata_body_check, with a cast dtype on channel B given WITH a byte order (np.dtype('>f4'), '<i2', native):
+    the slot holds the cast values, most significant byte first, whatever the byte orders of source and cast dtype."""
+    nps.reset()
+    (src, mapping, W) = make_source(kind, 5, 2, dtB, '<', '>' if ordB else '<', wB if wB > 0 else None)
+    known = {'B': nps.SDtype(DT_NAMES[castB], '>' if ordC else '<')}
+    w = W(src, mapping, known_dtypes=known)
+    (fr, ca, cb) = _frame(5)
+    chunk = w.load_chunk(2, 3)
+    row = list(chunk)[0]
+    fd = FrameData(fr, 1, row, origin_reference=5)
+    f = flat(fd._make_body_bytes())
+    k = len(uvari_expect(5)) + 4 + 1
+    if len(f) != k + 2:
+        return 1
+    sa, sb = f[k], f[k + 1]
+    wa = DT_SIZE[2]
+    wb = DT_SIZE[castB] * (wB if wB > 0 else 1)
+    if sa != ('src', 'colA|' + DT_NAMES[2] + '|>', 2 * wa, 3 * wa):
+        return 3
+    if sb != ('src', 'colB|' + DT_NAMES[castB] + '|>', 2 * wb, 3 * wb):
+        return 4
+    for m in nps.MUTATIONS:
+        if m[1] == 'caller':
+            return 6
+    return 0
+
+
+def ob_fdata_cast(kind: int, dtB: int, castB: int, ordB: bool, ordC: bool, wB: int) -> int:
+    """
+    pre: 0 <= kind < KINDS and kind % SHARD_N == SHARD_I % KINDS
+    pre: 0 <= dtB < 8 and 0 <= castB < 8 and 0 <= wB <= 4096
+    post: _ == 0
+    """
+    return fdata_cast_check(kind, dtB, castB, ordB, ordC, wB)
+
+
+def reach_fdata_cast(kind: int, dtB: int, castB: int, ordB: bool, ordC: bool, wB: int) -> int:
+    """
+    pre: 0 <= kind < KINDS
+    pre: 0 <= dtB < 8 and 0 <= castB < 8 and 0 <= wB <= 4096
+    post: _ != 0
+    """
+    return fdata_cast_check(kind, dtB, castB, ordB, ordC, wB)
+
+
 def wit_fdata_bigendian_2d(kind: int, dtB: int, wB: int) -> bool:
     """
     A big-endian source feeding a 2-D channel is written most significant byte first.
